@@ -7,11 +7,17 @@
   (`C10_stack_*`), hence the chosen prefix, looked up by XML-Namespaces rules in the scope built
   from the same declarations, gives back the name's namespace (`C10_sound_*`), and that an error
   is returned exactly when no usable prefix is in scope (`C10_error_*`).
+  `C10_stack_traversal` / `C10_sound_tree_*` carry this to the serialisation run itself: before
+  every event of `genOutputs` the stack stands for the declaration lists of the open elements between
+  the start node and the event's node on top of `namespaces_in_scope(start)`, so every start tag,
+  end tag and attribute name the run renders resolves, in exactly those declarations, to the
+  node's name (for every tree whose elements declare no prefix twice, every start node).
   Full strength is FALSE for elements (`C10_sound_Statement`): a no-namespace element inside the
   scope of a default-namespace declaration is written unprefixed.
 -/
 import XotModel.Lemmas.FStack
 import XotModel.Lemmas.Scope10
+import XotModel.Lemmas.TraceInv
 
 namespace XotModel.Props
 open XotModel
@@ -178,9 +184,111 @@ theorem C10_error_attribute (env : Env) (s : FStack) (fs : Frames) (name : Nat) 
       · rintro ⟨e, he⟩; cases he
       · intro hall; exact absurd hl (hall q hne)
 
+/-! ### The serialisation run -/
+
+theorem ownEvent_startTagOpen {inScope : List (Nat × Nat)} {b : Bool} {n : Tree} {name : Nat}
+    (h : OwnEvent inScope b n (.startTagOpen name)) : n.value = .element name := by
+  unfold OwnEvent edgeStart edgeEnd at h
+  cases hv : n.value <;> simp [hv] at h
+  rcases h with h1 | h1
+  · rw [h1]
+  · have h2 := h1.2
+    unfold extraPrefixes at h2
+    simp at h2
+
+/-- Traversal invariant: whenever the run reaches an event of node `p = start ++ rel` holding the
+    stack `s`, then `s` stands for the frames of the open nodes from the start node down to `p`
+    (without `p`'s own frame before its `StartTagOpen`), on top of the scope in force at the start
+    node — for every tree whose elements declare no prefix twice. -/
+theorem C10_stack_traversal (esc : Escapers) (env : Env) (pr : TokenParams) (t : Tree) (start : Path)
+    (n : Tree) (inScope : List (Nat × Nat)) (hat : t.at? start = some n)
+    (hs : namespacesInScope t start = some inScope) (hu : UniqueBelow n)
+    (s : FStack) (p : Path) (o : Output)
+    (hx : (s, p, o) ∈ stackTrace esc env pr t (initStack t start) (genOutputs t start)) :
+    ∃ rel, p = start ++ rel ∧ StackInv s (framesFor o (framesAlong n rel) ++ [inScope]) :=
+  genOutputs_trace esc env pr t start n inScope hat hs hu (s, p, o) hx
+
+/-- Start tags of the run: the prefix `render_output` uses for `<name` (chosen after pushing the
+    element's own declarations) resolves, in the declarations of the open elements, to the
+    element's namespace — under the guard excluding the no-namespace-under-default defect. -/
+theorem C10_sound_tree_partial (esc : Escapers) (env : Env) (pr : TokenParams) (t : Tree) (start : Path)
+    (n : Tree) (inScope : List (Nat × Nat)) (hat : t.at? start = some n)
+    (hs : namespacesInScope t start = some inScope) (hu : UniqueBelow n)
+    (s : FStack) (p : Path) (name : Nat) (node : Tree) (pfx : Option Nat)
+    (hx : (s, p, .startTagOpen name) ∈ stackTrace esc env pr t (initStack t start) (genOutputs t start))
+    (hnode : t.at? p = some node)
+    (hpfx : (s.push node.nsDecls).elementPrefix env name = .ok pfx) :
+    ∃ rel, p = start ++ rel ∧
+      ((env.nsOfName name = Env.noNamespace →
+          (lookupFrames (framesAlong n rel ++ [inScope]) Env.emptyPrefix).getD Env.noNamespace = Env.noNamespace) →
+        resolveElementName (framesAlong n rel ++ [inScope]) pfx = some (env.nsOfName name)) := by
+  obtain ⟨rel, hp, hinv⟩ := genOutputs_trace esc env pr t start n inScope hat hs hu _ hx
+  simp only at hp hinv
+  refine ⟨rel, hp, fun guard => ?_⟩
+  have hrel : n.at? rel = some node := by
+    have := hnode
+    rw [hp, at?_append, hat] at this
+    exact this
+  -- the node is an element named `name`
+  have hev := stackTrace_mem_events esc env pr t _ _ _ hx
+  simp only at hev
+  have hg : genOutputs t start = genNode inScope true start n := by simp [genOutputs, hat, hs]
+  rw [hg] at hev
+  obtain ⟨rel', n', hp', hat', _, hown⟩ := genNode_tagged inScope true start n p _ hev
+  have hrr : rel' = rel := List.append_cancel_left (hp'.symm.trans hp)
+  rw [hrr, hrel] at hat'
+  cases hat'
+  have hval := ownEvent_startTagOpen hown
+  have hframe : frameOf node = node.nsDecls := by simp [frameOf, hval]
+  obtain ⟨rest, hfr⟩ := framesAlong_head n rel node hrel
+  have hun : UniquePrefixes node.nsDecls := by rw [← hframe]; exact hu rel node hrel
+  rw [hfr, hframe] at hinv guard ⊢
+  simp only [framesFor, List.tail_cons] at hinv
+  have hinv' := hinv.push' hun
+  exact C10_sound_partial env _ _ name pfx hinv' hpfx (by simpa using guard)
+
+/-- End tags of the run resolve the same way (same guard). -/
+theorem C10_sound_tree_endtag_partial (esc : Escapers) (env : Env) (pr : TokenParams) (t : Tree)
+    (start : Path) (n : Tree) (inScope : List (Nat × Nat)) (hat : t.at? start = some n)
+    (hs : namespacesInScope t start = some inScope) (hu : UniqueBelow n)
+    (s : FStack) (p : Path) (name : Nat) (pfx : Option Nat)
+    (hx : (s, p, .endTag name) ∈ stackTrace esc env pr t (initStack t start) (genOutputs t start))
+    (hpfx : s.elementPrefix env name = .ok pfx) :
+    ∃ rel, p = start ++ rel ∧
+      ((env.nsOfName name = Env.noNamespace →
+          (lookupFrames (framesAlong n rel ++ [inScope]) Env.emptyPrefix).getD Env.noNamespace = Env.noNamespace) →
+        resolveElementName (framesAlong n rel ++ [inScope]) pfx = some (env.nsOfName name)) := by
+  obtain ⟨rel, hp, hinv⟩ := genOutputs_trace esc env pr t start n inScope hat hs hu _ hx
+  simp only [framesFor] at hp hinv
+  exact ⟨rel, hp, fun guard => C10_sound_partial env _ _ name pfx hinv hpfx guard⟩
+
+/-- Attribute names of the run: full strength — the prefix used resolves to the attribute's
+    namespace in the declarations of the open elements (its own element included). -/
+theorem C10_sound_tree_attribute (esc : Escapers) (env : Env) (pr : TokenParams) (t : Tree)
+    (start : Path) (n : Tree) (inScope : List (Nat × Nat)) (hat : t.at? start = some n)
+    (hs : namespacesInScope t start = some inScope) (hu : UniqueBelow n)
+    (s : FStack) (p : Path) (name : Nat) (v : Str) (pfx : Option Nat)
+    (hx : (s, p, .attribute name v) ∈ stackTrace esc env pr t (initStack t start) (genOutputs t start))
+    (hpfx : s.attributePrefix env name = .ok pfx) :
+    ∃ rel, p = start ++ rel ∧
+      resolveAttributeName (framesAlong n rel ++ [inScope]) pfx = some (env.nsOfName name) := by
+  obtain ⟨rel, hp, hinv⟩ := genOutputs_trace esc env pr t start n inScope hat hs hu _ hx
+  simp only [framesFor] at hp hinv
+  exact ⟨rel, hp, (C10_sound_attribute env _ _ name pfx hinv hpfx).1⟩
+
 /-- Non-vacuity: `<a xmlns:p="2"><p:b/></a>`-like scope — name 0 = `b` in namespace 2, prefix 5
     bound to it two frames up, an unrelated frame in between. -/
 example : resolveElementName [[(4, 3)], [], [(5, 2)]] (some 5) = some 2 := by decide
 example : (FStack.new [(5, 2)]).elementPrefix ⟨[], [], [(['b'], 2)]⟩ 0 = .ok (some 5) := rfl
+
+/-- Non-vacuity of the tree-level theorems: in `<a xmlns:p5="ns2"><b/></a>` (both names in
+    namespace 2) the run reaches `<b` holding the stack `[[xml, p5↦2], [xml]]`; `b` is written with
+    prefix 5, which the frames of the open elements resolve to namespace 2. -/
+example :
+    let env : Env := ⟨[], [], [(['a'], 2), (['b'], 2)]⟩
+    let t : Tree := .node .document [.node (.element 0) [.node (.namespace 5 2) [], .node (.element 1) []]]
+    (([[(1, 1), (5, 2)], [(1, 1)]], [0, 1], Output.startTagOpen 1) ∈
+        stackTrace xmlEscapers env {} t (initStack t []) (genOutputs t [])) ∧
+      resolveElementName (framesAlong t [0, 1] ++ [[(1, 1)]]) (some 5) = some 2 := by decide
 
 end XotModel.Props
